@@ -555,6 +555,25 @@ def r4_null_only_without_security(chk):
                 pv = " ".join(nb.provenance(a) for a in gc.args)
                 if row + ".name_static_bytes" in pv and "peer_greeting.mechanism" in pv:
                     nm_ok = True
+        if not nm_ok:
+            # the row may have been selected by `iter().find(|d| d.name_static_bytes == <peer's proposal>)`: the equality sits in the closure
+            sl = nb.data_slice(ic.t["f"]["o"])
+            if any(x[0] == "call" and re.search(r"Iterator>?::find$", x[1]) for x in sl):
+                for c2 in nb.calls:
+                    if not re.search(r"Iterator>?::find$", c2.callee) or len(c2.args) < 2:
+                        continue
+                    org = nb.value_origin(c2.args[1])
+                    cl = org[1]["r"].get("def") if org[0] == "agg" else None
+                    cb = prog.bodies.get(cl) if cl else None
+                    if cb is None:
+                        continue
+                    caps = " ".join(nb.provenance(o) for o in org[1]["r"]["ops"])
+                    for e in cb.calls:
+                        if e.name == "eq":
+                            pv = " ".join(cb.provenance(a) for a in e.args)
+                            # the closure returns the comparison itself (no negation): its result feeds _0
+                            if "name_static_bytes" in pv and ("peer_greeting.mechanism" in caps or "peer_proposed" in caps) and any(x[0] == "call" and x[1].endswith("::eq") for x in cb.data_slice({"c": "copy", "p": {"l": 0, "pr": [], "s": "", "ty": ""}})):
+                                nm_ok = True
         # every Ok return comes from that call
         other_ok = []
         for d in nb.whole_defs(0):
